@@ -21,7 +21,7 @@ DEVIATIONS = [
     "comments", "prov-other", "default-ns", "bool-01", "time-Z", "int-as-long", "lang-with-type", "unsorted-extras",
     "shadowed-root-prefix", "comment-in-text", "cdata-text", "charref-text",
     "outer-comment", "pi-in-record", "pi-in-text", "empty-lang", "xsi-type-on-time", "time-end-of-day",
-    "latin1-declaration",
+    "latin1-declaration", "qname-text-padded",
 ]
 
 
@@ -91,7 +91,11 @@ def value_xml(a, v, namer, sites, xsdp):
     if k == "uri":
         return ' xsi:type="%s:anyURI"' % xsdp, v[1]
     if k == "qn":
-        return ' xsi:type="%s:QName"' % xsdp, namer.qname(v[1])
+        q = namer.qname(v[1])
+        if sites.on("qname-text-padded"):
+            # (xsd:QName's whitespace facet is "collapse": a pretty-printer may put the name on its own line)
+            q = "\n      %s\n    " % q
+        return ' xsi:type="%s:QName"' % xsdp, q
     if k == "lit":
         _, lex, dt, lang = v
         if lang is not None:
@@ -306,3 +310,4 @@ def _count(doc, prefixes, sites, default):
     sites.on("shadowed-root-prefix")
     sites.on("outer-comment")
     sites.on("latin1-declaration")
+    sites.on("default-ns")  # a global dialect: one site
